@@ -155,6 +155,38 @@ func ruleLookupTable(c *Ctx) {
 			}
 			return true
 		})
+		// map lookups that answer the token must be in comma-ok form, the answer returned only under ok
+		nmap := 0
+		c.walkWithIfStack(fd.Body, func(nd ast.Node, ifs []*ast.IfStmt) {
+			ix, ok := nd.(*ast.IndexExpr)
+			if !ok {
+				return
+			}
+			p, ok := c.apath(ix.X)
+			if !ok || p.Root != recv {
+				return
+			}
+			if _, isMap := c.typeOf(ix.X).Underlying().(*types.Map); !isMap {
+				return
+			}
+			keyed := isTok(ix.Index)
+			if id, ok := unparen(ix.Index).(*ast.Ident); ok && atoiVars[c.objOf(id)] {
+				keyed = true
+			}
+			if !keyed {
+				return
+			}
+			nmap++
+			commaOK := false
+			ast.Inspect(fd.Body, func(m ast.Node) bool {
+				if as, ok := m.(*ast.AssignStmt); ok && len(as.Lhs) == 2 && len(as.Rhs) == 1 && unparen(as.Rhs[0]) == ast.Expr(ix) {
+					commaOK = true
+				}
+				return true
+			})
+			c.ob(rule, fmt.Sprintf("%s:comma-ok(%s)", tname, p.Sub()), ix.Pos(), commaOK,
+				"a map lookup answers the token without the comma-ok test: a member that does not exist yields a zero value with a nil error on the typed document, while its JSON form reports no such member")
+		})
 		cs := codec[tname]
 		// (i)+(ii): per component of the struct
 		for i := 0; i < st.NumFields(); i++ {
